@@ -216,3 +216,52 @@ Example C02_example_concurrent_private :
   map th_res (snd (run round_robin (fun _ => [], start [(0%nat, prevout_chunks ctx1); (1%nat, prevout_chunks ctx2)])))
   = [Some (previous_out_hash ctx1); Some (previous_out_hash ctx2)].
 Proof. exact conc_private_example. Qed.
+
+(** REFUSED SETTER / BUILDER CALLS (model/SigBuild.v, proofs/SigBuildProofs.v).  "Every transaction" is, for a
+    caller, what its successful calls made: a call that returns an error has not happened.  The model of
+    Input.PreviousTxIDAdd / PreviousTxIDAddStr / Tx.From / Tx.FromUTXOs is in the order of the Go code (validate,
+    then assign); the other builders enter by their contract (an error: nothing).  [step_op t o failed] is the
+    transaction after call [o] whose verdict was [failed]; [head_refused o] excludes the one call that the code
+    completes partly before failing (FromUTXOs with a refused UTXO behind an accepted one).  The Go harness walks
+    one long-lived object and its own record through histories of such calls and compares all digests on every run
+    (corr/C02.v CHist: the model decides the verdicts itself). *)
+From GoBT Require Import model.SigBuild proofs.SigBuildProofs.
+Theorem C02_refused_call_leaves_transaction : forall t o t',
+  head_refused o -> step_op t o true = Some t' -> t' = t.
+Proof. exact refused_call_leaves_transaction. Qed.
+Print Assumptions C02_refused_call_leaves_transaction.
+Theorem C02_refused_call_keeps_every_digest : forall t o t' i ht,
+  head_refused o -> step_op t o true = Some t' ->
+  calc_input_preimage t' i ht = calc_input_preimage t i ht /\
+  calc_input_signature_hash t' i ht = calc_input_signature_hash t i ht.
+Proof. exact refused_call_keeps_every_digest. Qed.
+Print Assumptions C02_refused_call_keeps_every_digest.
+(** an input that never had a previous txid still has none after a refused PreviousTxIDAdd / PreviousTxIDAddStr:
+    preimage and signature hash keep reporting ErrEmptyPreviousTxID *)
+Theorem C02_refused_txid_is_still_missing : forall t j o t' inp ht,
+  (exists id, o = OTxidAdd j id) \/ (exists s, o = OTxidAddStr j s) ->
+  input_idx t j = Some inp -> in_txid inp = [] ->
+  step_op t o true = Some t' ->
+  fst (calc_input_preimage t' j ht) = SErr ErrEmptyPreviousTxID /\
+  fst (calc_input_signature_hash t' j ht) = SErr ErrEmptyPreviousTxID.
+Proof. exact refused_txid_is_still_missing. Qed.
+Print Assumptions C02_refused_txid_is_still_missing.
+(** an accepted previous txid has 32 bytes and is recorded on that input, nothing else changes *)
+Theorem C02_accepted_txid_is_recorded : forall t j id t' i,
+  nthN (tx_ins t) j = Some i ->
+  step_op t (OTxidAdd j id) false = Some t' ->
+  nthN (tx_ins t') j = Some (set_txid i id) /\ List.length id = 32%nat /\
+  tx_version t' = tx_version t /\ tx_outs t' = tx_outs t /\ tx_lock t' = tx_lock t.
+Proof. exact accepted_txid_is_recorded. Qed.
+Print Assumptions C02_accepted_txid_is_recorded.
+(** non-vacuity: a 31-byte txid and the string "abcd" are refused (the hypothesis [step_op … true = Some _] holds),
+    a 32-byte one is accepted; From with a script that is not hex is refused *)
+Example C02_example_refused_calls :
+  let t := mkTx 1 [mkInput [] 3 [] 7 1000 (Some [x51])] [mkOutput 900 [x51]] 0 in
+  step_op t (OTxidAdd 0 (repeat_byte 31 x00)) true = Some t /\
+  step_op t (OTxidAddStr 0 "abcd") true = Some t /\
+  step_op t (OFrom "00" 0 "5" 1) true = Some t /\
+  step_op t (OTxidAdd 0 (repeat_byte 32 xaa)) false
+    = Some (mkTx 1 [mkInput (repeat_byte 32 xaa) 3 [] 7 1000 (Some [x51])] [mkOutput 900 [x51]] 0) /\
+  step_op t (OTxidAdd 0 (repeat_byte 32 xaa)) true = None.
+Proof. vm_compute. repeat split. Qed.
